@@ -41,9 +41,13 @@ def shards(tier, seed):
     for i, part in enumerate(families.chunk(short, 48 if tier == 'quick' else 96)):
         out.append(dict(kind='short', data=part, idx=i))
     byte_data = []
-    for k in (1, 2, 3):
+    for k in (1, 2, 3, 4):
         for bi, b in enumerate(families.byte_strings(k)):
-            if tier == 'thorough' or k == 1:
+            if k == 4:
+                # 4-byte strings: constant / two-valued ones only (runs of equal bytes, self-overlapping patterns)
+                hx = {b[i:i + 8] for i in range(0, 32, 8)}
+                offs = ((0, 5) if tier == 'quick' else (0, 1, 5, 7)) if len(hx) <= (1 if tier == 'quick' else 2) else ()
+            elif tier == 'thorough' or k == 1:
                 offs = range(8)
             elif k == 2:
                 offs = (0, 1, 4, 7)
@@ -66,7 +70,9 @@ def shards(tier, seed):
 
 SHORT_PATTERNS = list(families.all_bits(3))          # includes '' (must raise)
 BYTE_PATTERNS = ['00000000', '11111111', '10110010', '00000001', '10000000', '0000000011111111', '1111111110110010',
-                 '1011001000000001', '0000000110000000', '1000000000000000', '000000001', '1', '01', '']
+                 '1011001000000001', '0000000110000000', '1000000000000000', '000000001', '1', '01', '',
+                 # self-overlapping at a byte offset (period 8): successive *non-overlapping* matches matter for split/replace
+                 '0000000000000000', '1111111111111111', '1011001010110010']
 
 
 CNT_FULL = (None, 0, 1, 2, -1)
